@@ -199,6 +199,20 @@ class World:
                 got = api.transfer_model(self.mdir, "M", dict(opts))
                 sig = cachecmp.signature(got)
             except Exception as e:
+                # a combination of options under which the sources do not compile at all (today: expand_vectors
+                # with iterative_simplification) is outside the property: ask the uncached compiler
+                try:
+                    probe = os.path.join(self.root, "probe")
+                    shutil.rmtree(probe, ignore_errors=True)
+                    os.makedirs(probe)
+                    shutil.copy(os.path.join(self.mdir, "M.mo"), os.path.join(probe, "M.mo"))
+                    api.transfer_model(probe, "M", dict(self.opts, expand_mx=True))
+                except Exception as e2:
+                    if type(e2) is type(e):
+                        self.ctx.discard("sources-do-not-compile-under-these-options:" + type(e).__name__)
+                        return "stop"
+                finally:
+                    shutil.rmtree(os.path.join(self.root, "probe"), ignore_errors=True)
                 return ("C20:transfer-raises:%s" % exc_sig(e), "transfer_model raised %r" % (e,))
         if type(got).__name__ == "CachedModel":
             self.ctx.monitor("cache_hits_observed")
